@@ -13,8 +13,14 @@ use super::super::{
 impl Parser for Include {
     fn parse(input: &str) -> IResult<&str, Include> {
         map(
-            tuple((tag("include"), blank, Literal::parse, opt(list_separator))),
-            |(_, _, path, _)| Include { path },
+            tuple((
+                tag("include"),
+                blank,
+                Literal::parse,
+                opt(blank),
+                opt(list_separator),
+            )),
+            |(_, _, path, _, _)| Include { path },
         )(input)
     }
 }
@@ -26,9 +32,10 @@ impl Parser for CppInclude {
                 tag("cpp_include"),
                 blank,
                 Literal::parse,
+                opt(blank),
                 opt(list_separator),
             )),
-            |(_, _, path, _)| CppInclude(path),
+            |(_, _, path, _, _)| CppInclude(path),
         )(input)
     }
 }
